@@ -73,6 +73,16 @@ where
         }
     }
 
+    /// Marks the "ingest" processor as failed for this event.
+    ///
+    /// An operation which could not be ingested (forged, malformed or not extending its log) must
+    /// not have any further effect. Its prune flag was read from an unauthenticated header, so the
+    /// "log prune" processor is told to ignore this event.
+    pub(crate) fn ingest_failed(&mut self, err: IngestError) {
+        self.ingest = ProcessorStatus::Failed(err);
+        self.log_prune_args = LogPruneArgs::Ignore;
+    }
+
     /// System-level data (append-only log, pruning coordination, etc.) of this operation.
     pub fn header(&self) -> &Header<E> {
         &self.operation.header
